@@ -179,11 +179,11 @@ PROPS = {
                 "C19_cmp_obj_obj", "C19_cmp_str_by_len", "C19_signed_zero_hash_refuted", "C19_nan_not_reflexive",
                 "C19_nan_key_eq_hash_refuted", "C19_eq_trans_nan_refuted", "C19_fn_not_reflexive_legacy",
                 "C19_fn_key_eq_hash_legacy_refuted", "C19_eq_trans_legacy_refuted", "C19_fn_key_repaired",
-                "C19_coherentb_correct")] +
+                "C19_coherentb_correct", "C19_cmp_int_real_exact")] +
             # statements about real numbers (Flocq B2R / Rcompare): the axioms of Coq's Reals library.
             [(t, REALS_AXIOMS) for t in (
-                "C19_cmp_real_real_numeric", "C19_eq_real_real_numeric", "C19_cmp_mixed_partial",
-                "C19_cmp_mixed_refuted", "C19_oracle_Z_cmp_sf_correct")]),
+                "C19_cmp_real_real_numeric", "C19_eq_real_real_numeric", "C19_cmp_mixed", "C19_cmp_mixed_any",
+                "C19_cmp_mixed_legacy_refuted", "C19_oracle_Z_cmp_sf_correct")]),
         n_quick=1500, n_thorough=12000,
         gates=["pair", "triple", "eq.true.tables_built_differently", "table_table.permuted", "table.depth>=3",
                "mixed.int_real", "mixed.int_beyond_2^53", "zero_vs_negzero", "has_nan", "has_nan_key",
@@ -315,9 +315,9 @@ PROPS = {
         prop_file="Properties/C02.v",
         check_module="C02Check",
         theorems={t: [] for t in ["C02_gc_preserves_reachable", "C02_mark_sound", "C02_mark_terminates"]},
-        n_quick=260, n_thorough=3000,
+        n_quick=300, n_thorough=3000,
         gates=["sched=every", "sched=single", "sched=subset", "gc_case", "prog=closures", "prog=stdlib_object_keys",
-               "prog=inline_closure"],
+               "prog=inline_closure", "prog=overwrite_equal_keys"],
         rule="for each program of the library (see C05, plus key functions returning fresh objects): a baseline run, "
              "then runs with a collection forced at every allocation, at each single allocation index (quick: all "
              "when <= 16 allocations, else 16 sampled; thorough: all) and at random subsets; freed objects are "
